@@ -44,7 +44,7 @@ package dns
 //@   ensures ret0 != nil
 //@   fresh
 //@ func (*ZoneParser).generate [C06 C07]
-//@   requires zp != nil
+//@   requires zp != nil && zp.c != nil
 //@   assert at "r := &generateReader{" range: 0 <= start && start <= end && step > 0 && (end - start) / step <= 65535
 //@   assert at "zp.sub = NewZoneParser(r, zp.origin, zp.file)" geninit: geninv(r.step, r.start, r.end, r.si, len(r.s), r.eof, r.cur) && r.lex != nil
 //@   assert at "return zp.subNext()" nonest: zp.sub != nil && zp.sub.generateDisallowed
